@@ -27,6 +27,6 @@ func TestDeadlineSchedulesExpired(t *testing.T) {
 
 // far deadlines only: thousands of cases
 func TestDeadlineSchedules(t *testing.T) {
-	kit.Check(t, kit.Spec[schedx.Case]{Sub: "sched", Quick: 4000, Thorough: 40000,
+	kit.Check(t, kit.Spec[schedx.Case]{Sub: "sched", Quick: 6000, Thorough: 40000,
 		Gen: schedx.Gen(schedx.Profile{Fast: true, AWeights: deadlineFirst, Deadlines: true}), Exec: schedx.Exec, TrackCase: true})
 }
